@@ -953,6 +953,7 @@ func (g *gen) applyCall(val ssa.Value, c *ssa.CallCommon, full, short string, or
 		if len(res) == 1 {
 			e.vars["result"] = res[0]
 		}
+		e.assuming = true
 		for _, en := range ct.Ensures {
 			g.assume(implies(g.curReach, g.specBool(e, en)))
 		}
